@@ -89,6 +89,25 @@ def req_C01(r, tier):
         out.append(("felv51.square", "felv51.square %s" % ilst(la_)))
         out.append(("felv51.square2", "felv51.square2 %s" % ilst(la_)))
         out.append(("felv51.pow2k", "felv51.pow2k %s %d" % (ilst(la_), 1 + r.below(4))))
+        # felF* : limb-exact on the fiat wrapper backends against the TRANSLATED wrappers (Gen/FiatField51|26, the called
+        #         fiat-crypto functions inlined); inputs inside fiat's tight bounds (inclusive 2^51 / 2^26 / 2^25): the
+        #         contract under which Props/C01/Fiat51|26 are proved, with `max` = every limb exactly at the bound
+        T51 = 1 << 51
+        fa = [min(x, T51) for x in (limbs51(r, 52, ka) if ka != "max" else [T51] * 5)]
+        fb = [min(x, T51) for x in (limbs51(r, 52, kb) if kb != "max" else [T51] * 5)]
+        for op in ("add", "sub", "mul"):
+            out.append(("felF51.%s:%s,%s" % (op, ka, kb), "felF51.%s %s %s" % (op, ilst(fa), ilst(fb))))
+        for op in ("neg", "square", "square2", "as_bytes"):
+            out.append(("felF51.%s:%s" % (op, ka), "felF51.%s %s" % (op, ilst(fa))))
+        out.append(("felF51.pow2k", "felF51.pow2k %s %d" % (ilst(fb), 1 + r.below(4))))
+        T26 = [(1 << (26 if j % 2 == 0 else 25)) for j in range(10)]
+        ga = [min(x, t) for x, t in zip(limbs26(r, 2.0, ka) if ka != "max" else T26, T26)]
+        gb = [min(x, t) for x, t in zip(limbs26(r, 2.0, kb) if kb != "max" else T26, T26)]
+        for op in ("add", "sub", "mul"):
+            out.append(("felF26.%s:%s,%s" % (op, ka, kb), "felF26.%s %s %s" % (op, ilst(ga), ilst(gb))))
+        for op in ("neg", "square", "square2", "as_bytes"):
+            out.append(("felF26.%s:%s" % (op, ka), "felF26.%s %s" % (op, ilst(ga))))
+        out.append(("felF26.pow2k", "felF26.pow2k %s %d" % (ilst(gb), 1 + r.below(4))))
         a, b = limbs26(r, 5.65, ka), limbs26(r, 3.36, kb)
         out.append(("fel26.mul:%s,%s" % (ka, kb), "fel26.mul %s %s" % (ilst(a), ilst(b))))
         for op in ("square", "square2"):
@@ -168,6 +187,8 @@ def req_C01(r, tier):
     for la, a in pool:
         out.append(("fel51.from_bytes:" + la, "fel51.from_bytes " + H(a)))
         out.append(("fel26.from_bytes:" + la, "fel26.from_bytes " + H(a)))
+        out.append(("felF51.from_bytes:" + la, "felF51.from_bytes " + H(a)))
+        out.append(("felF26.from_bytes:" + la, "felF26.from_bytes " + H(a)))
     # vector lanes
     for A in ("avx2", "ifma"):
         for i in range(sz(tier, 40, 1500)):
